@@ -4,7 +4,7 @@ import ProductMD.Spec.Arches
 C10, images side: which architecture keys `Images.add` (the statement list read from the source) can create,
 and what a refused call leaves behind.
 -/
-namespace PM.Img
+namespace PM.Img.C10
 open PM PM.PyOps PM.Spec
 set_option Elab.async false
 
@@ -271,4 +271,4 @@ theorem serialize_keys (s : ImgState) (doc : PyVal) (h : (serialize s).2 = .ok d
   · exact e
   · simp [outArchKeys] at e
 
-end PM.Img
+end PM.Img.C10
